@@ -99,7 +99,9 @@ http_write = Unit(
     'HttpMessage_write_blocks', 'C10',
     cuts=[Cut('hw', HC, r'^int HttpMessage::write\(const char\* buffer, int n\)\s*$',
               rules=[(r'if \(!_headersSent\)\s*if \(!sendHeaders\(\)\)\s*return false;', 'if (!vf_headers()) return 0;', 1),
-                     (r'\*_socket << String::f\("%x\\r\\n", m\);', 'CHUNK_HDR(m);', 1), (r'_socket->write\(buffer, m\)', 'SOCK_WRITE(buffer, m)', 1),
+                     (r'String::f\("%x\\r\\n", ((?:[^()]|\([^()]*\))*)\)', r'HEXLINE(\1)', '+'), (r'\bString\(\)', '(-1)', None), (r'\bString (\w+) = ', r'int \1 = ', None),
+                     (r'\*_socket << (HEXLINE\((?:[^()]|\([^()]*\))*\));', r'CHUNK_HDR(\1);', None), (r'\*_socket << (\w+);', r'CHUNK_HDR(\1);', None),   # a chunk-size line is represented by the number it prints
+                     (r'_socket->write\(buffer, m\)', 'SOCK_WRITE(buffer, m)', 1),
                      (r'_status->sent \+= written;', '', 1), (r'if \(_progress\)\s*_progress\(\*_status\);', '', 1), (r'\*_socket << "\\r\\n";', 'CHUNK_END();', 1),
                      (r'\b_chunked\b', 'self_chunked', None)],
               loops=[(r'while \(n > 0\)', 0, '''
@@ -110,6 +112,7 @@ http_write = Unit(
     text=PRE + r'''
 #define SEND_BLOCK_SIZE 128000
 bool self_chunked; int g_hdr, g_open;
+#define HEXLINE(v) ((int)(v))      /* String::f("%x\r\n", v): the text of a chunk-size line, represented by the size it announces */
 static bool vf_headers(void) { return nondet_bool(); }
 /* chunked transfer coding (RFC 9112 7.1): each chunk = hex size CRLF data CRLF */
 static void CHUNK_HDR(int m) { __CPROVER_assert(!g_open, "chunk header only between chunks"); g_hdr = m; g_open = 1; }
